@@ -176,8 +176,8 @@ class Bench:
             (self.toolchain_crashes if crash else self.build_failures).append((progs[0], npk, opt, log[-3000:] if not crash else log[:600]))
             return []
         if crash and self.ctx.tier == "quick" and depth >= 2:
-            # quick tier: an LLVM 14 optimiser crash is narrowed down to a quarter of the batch only (bounded extra builds);
-            # the programs of that quarter are recorded as not judged under this configuration
+            # quick tier: an LLVM 14 optimiser crash is narrowed down to a quarter of the batch only (at most 4 extra builds,
+            # and only when a crash happens); the programs of that quarter are recorded as not judged under this configuration
             for P in progs:
                 self.toolchain_crashes.append((P, npk, opt, "one of %d programs built together crashes LLVMRunPasses (not bisected further in the quick tier)" % len(progs)))
             return []
@@ -330,7 +330,9 @@ def run_check(ctx, args):
     build_llgo(ctx)
     bench = Bench(ctx, modeld)
 
-    layouts = [1, 3, 4] if quick else [1, 2, 3, 4]
+    # the SAME programs are emitted in every layout of a round: the reference toolchain and the Lean evaluator see each
+    # program once (layout 1), llgo sees it once per layout and optimisation level
+    layouts = [1, 3] if quick else [1, 2, 3, 4]
     if os.environ.get("VERIF_C01_LAYOUTS"):          # development aid: restrict the layouts, e.g. "1,3"
         layouts = [int(x) for x in os.environ["VERIF_C01_LAYOUTS"].split(",")]
     per_batch = int(os.environ.get("VERIF_C01_BATCH", "40"))
@@ -340,53 +342,51 @@ def run_check(ctx, args):
     feats, samples, model_dis = {}, [], []
     extra_sources = []
     nontrivial = 0
-    batch_no = 0
     for rnd in range(rounds):
+        progs = corpus_programs(0) if rnd == 0 else []
+        while len(progs) < per_batch:
+            seed = ctx.rng.getrandbits(48)
+            P = gen2.generate(seed, len(progs))
+            P.seed = seed
+            progs.append(P)
+        tag = "r%d" % rnd
+        d = bench.write(progs, 1, tag + "-ref")
+        t0 = time.time()
+        pr = bench.ref_build(d)
+        if pr.returncode != 0:
+            raise RuntimeError("the reference toolchain rejects a generated program (generator bug, seeds %s):\n%s"
+                               % ([P.seed for P in progs][:5], (pr.stdout + pr.stderr)[-3000:]))
+        ref = bench.run_all(os.path.join(d, "ref"), progs)
+        mod = bench.model(progs)
+        if rnd == 0:
+            extra_sources.append([os.path.join(d, "main.go"), os.path.join(d, "input_llgo.go")])
+        ctx.log("round %d: %d programs, reference build+run and Lean evaluation %.0fs" % (rnd, len(progs), time.time() - t0))
+        live = []
+        for P in progs:
+            stats["programs"] += 1
+            for f in P.features:
+                feats[f] = feats.get(f, 0) + 1
+            want = ref[P.idx]
+            if want[1] == "timeout":
+                stats["skipped_reference_timeout"] += 1
+                continue
+            live.append(P)
+            if want[0].count("\n") >= 5:
+                nontrivial += 1
+            got = mod[P.idx]
+            if got[1] == "timeout":
+                stats["skipped_model_out_of_fuel"] += 1
+            elif got != want:
+                stats["model_disagreements"] += 1
+                model_dis.append({"seed": P.seed, "diff": first_diff(got, want)})
+                ctx.log("MODEL disagreement (not a violation) seed", P.seed, first_diff(got, want))
+            if len(samples) < 4 and P.idx % 13 == 1:
+                samples.append({"seed": P.seed, "features": sorted(P.features), "reference_output_head": want[0][:200], "termination": want[1],
+                                "lean_evaluator_agrees": got == want})
         for npk in layouts:
-            progs = corpus_programs(0) if batch_no == 0 else []
-            while len(progs) < per_batch:
-                seed = ctx.rng.getrandbits(48)
-                P = gen2.generate(seed, len(progs))
-                P.seed = seed
-                progs.append(P)
-            batch_no += 1
-            tag = "r%d-l%d" % (rnd, npk)
-            d = bench.write(progs, npk, tag + "-ref")
-            t0 = time.time()
-            pr = bench.ref_build(d)
-            if pr.returncode != 0:
-                raise RuntimeError("the reference toolchain rejects a generated program (generator bug, seeds %s):\n%s"
-                                   % ([P.seed for P in progs][:5], (pr.stdout + pr.stderr)[-3000:]))
-            ref = bench.run_all(os.path.join(d, "ref"), progs)
-            mod = bench.model(progs)
-            if batch_no == 1 and npk == 1:
-                extra_sources.append([os.path.join(d, "main.go"), os.path.join(d, "input_llgo.go")])
-            ctx.log("layout %d packages: %d programs, reference build+run %.0fs" % (npk, len(progs), time.time() - t0))
-            live = []
-            for P in progs:
-                stats["programs"] += 1
-                for f in P.features:
-                    feats[f] = feats.get(f, 0) + 1
-                want = ref[P.idx]
-                if want[1] == "timeout":
-                    stats["skipped_reference_timeout"] += 1
-                    continue
-                live.append(P)
-                if want[0].count("\n") >= 5:
-                    nontrivial += 1
-                got = mod[P.idx]
-                if got[1] == "timeout":
-                    stats["skipped_model_out_of_fuel"] += 1
-                elif got != want:
-                    stats["model_disagreements"] += 1
-                    model_dis.append({"seed": P.seed, "diff": first_diff(got, want)})
-                    ctx.log("MODEL disagreement (not a violation) seed", P.seed, first_diff(got, want))
-                if len(samples) < 4 and P.idx % 13 == 1:
-                    samples.append({"seed": P.seed, "features": sorted(P.features), "reference_output_head": want[0][:200], "termination": want[1],
-                                    "lean_evaluator_agrees": got == want})
             for opt in ("-O0", "-O2"):
                 t0 = time.time()
-                parts = bench.llgo_parts(live, npk, opt, tag)
+                parts = bench.llgo_parts(live, npk, opt, "%s-l%d" % (tag, npk))
                 for binary, sub in parts:
                     res = bench.run_all(binary, sub)
                     for P in sub:
@@ -396,7 +396,7 @@ def run_check(ctx, args):
                             continue
                         stats["llgo_disagreements"] += 1
                         report_disagreement(ctx, bench, P, npk, opt, got, want)
-                ctx.log("layout %d %s: llgo build+run %.0fs" % (npk, opt, time.time() - t0))
+                ctx.log("round %d, %d package(s), %s: llgo build+run %.0fs" % (rnd, npk, opt, time.time() - t0))
     for (P, npk, opt, log) in bench.build_failures:
         text = program_text(P, npk)
         ctx.report("build-failure:" + hashlib.sha256(text.encode()).hexdigest()[:16],
@@ -426,7 +426,7 @@ def run_check(ctx, args):
     cov = {"programs": stats["programs"], "disagreements_checked": stats["comparisons"], "evaluations": stats["comparisons"] + stats["programs"],
            "distinct_nontrivial": nontrivial,
            "rule": "one evaluation = one generated program run under one configuration (layout x {-O0,-O2}) compared with the reference toolchain's run "
-                   "of the same source, plus one Lean evaluation per program; non-trivial = the reference prints at least 5 lines; programs are distinct by seed",
+                   "of the same source (built once, single-package layout), plus one Lean evaluation per program; non-trivial = the reference prints at least 5 lines; programs are distinct by seed",
            "input_distribution": dict(sorted(feats.items())), "layouts_packages": layouts, "opt_levels": ["-O0", "-O2"], "runtime_config": "nogc only",
            "model_disagreements": stats["model_disagreements"], "llgo_disagreements": stats["llgo_disagreements"],
            "skipped_reference_timeout": stats["skipped_reference_timeout"], "skipped_model_out_of_fuel": stats["skipped_model_out_of_fuel"],
